@@ -512,3 +512,45 @@ func HasFanout(c []M) bool {
 	}
 	return false
 }
+
+// MakeUnreversible turns a filled translated value into one ReverseTranslate
+// must reject, if the translated type offers a way: both copies of an aliased
+// top-level field set, or a string field holding a text no parser accepts for
+// a non-string target.  Returns false if nothing could be done.
+func MakeUnreversible(v reflect.Value) bool {
+	t := v.Type()
+	for i := 0; i < t.NumField(); i++ {
+		name := t.Field(i).Name
+		if !strings.HasSuffix(name, "_alias9wr876rw3") {
+			continue
+		}
+		prim := v.FieldByName(strings.TrimSuffix(name, "_alias9wr876rw3"))
+		al := v.Field(i)
+		if !prim.IsValid() || prim.Type() != al.Type() {
+			continue
+		}
+		ok := true
+		for _, fv := range []reflect.Value{prim, al} {
+			switch fv.Kind() {
+			case reflect.Ptr:
+				if fv.IsNil() {
+					fv.Set(reflect.New(fv.Type().Elem()))
+				}
+			case reflect.Slice:
+				if fv.IsNil() {
+					fv.Set(reflect.MakeSlice(fv.Type(), 0, 0))
+				}
+			case reflect.Map:
+				if fv.IsNil() {
+					fv.Set(reflect.MakeMap(fv.Type()))
+				}
+			default:
+				ok = false
+			}
+		}
+		if ok {
+			return true
+		}
+	}
+	return false
+}
